@@ -102,8 +102,29 @@ def warm_and_skew_cases(tier, seed):
             i += 1
 
 
+def unreadable_result_cases(tier, seed):
+    """An at-most-once step that completed, replayed when its recorded result cannot be read back (custom serdes, store down or a
+    newer deployment): the invocation may fail, the step function must not be entered again for the attempt that completed."""
+    i = 0
+    for shape in ("top", "branch", "child"):
+        for retry in (None, {"decisions": [("retry", 1), ("stop",)]}):
+            step = {"k": "step", "val": {"status": "CHARGED"}, "sem": "most", "serdes": "outage"}
+            if retry:
+                step["script"] = [{"do": "fail", "cls": "ValueError", "msg": "first attempt"}, {"do": "ok"}]
+                step["retry"] = retry
+            body = [step, {"k": "wait", "s": 1}, {"k": "step", "val": "after"}, {"k": "wait", "s": 1}, {"k": "step", "val": "end"}]
+            if shape == "branch":
+                body = [{"k": "par", "branches": [{"body": body}, {"body": [{"k": "step", "val": 1}]}], "cfg": {"preset": "all_completed"}}]
+            elif shape == "child":
+                body = [{"k": "child", "body": body}]
+            yield {"label": "c04-unreadable-result|%s|%s" % (shape, "retried" if retry else "first"), "prog": {"body": body}, "prog_seed": 27900 + i,
+                   "pattern": {"p": "plain"}, "world": {"complete": {}, "timers": "all"}, "max_inv": 8, "max_raises": 2}
+            i += 1
+
+
 def explicit_all(tier, seed):
     yield from explicit(tier, seed)
+    yield from unreadable_result_cases(tier, seed)
     yield from lag_cases(tier, seed)
     yield from fault_cases(tier, seed)
     yield from warm_and_skew_cases(tier, seed)
